@@ -9,7 +9,9 @@
 //!      whose cookie was echoed for the initiator), 0 only on INIT;
 //!  (d) first transmissions of DATA carry consecutive TSNs (mod 2^32) from the advertised initial TSN;
 //!  (e) new DATA is not injected once the advertised window is exhausted beyond one packet;
-//!  (f) no retransmission of a TSN more than 1 s after a covering SACK was delivered to the sender;
+//!  (d') a TSN the sender skips must be given up by a FORWARD-TSN of its own that reaches it, and never shows up later;
+//!  (f) no retransmission of a TSN more than 300 ms after a covering SACK was delivered to the sender
+//!      (legitimate lag measured: < 10 ms idle, < 100 ms under a concurrent cargo build);
 //!  (g) 1 s after everything ever sent is acknowledged (or skipped by a delivered FORWARD-TSN), and
 //!      for 1.5 s, only HEARTBEAT / HEARTBEAT-ACK appear.
 
@@ -31,7 +33,7 @@ use std::time::Duration;
 pub const MAX_PACKET: usize = 1200;
 /// window of recently delivered SACKs whose a_rwnd the sender may still be acting on
 pub const RECENT_SACK_US: u64 = 100_000;
-pub const LATE_RETX_US: u64 = 1_000_000;
+pub const LATE_RETX_US: u64 = 300_000;
 pub const QUIET_AFTER_US: u64 = 1_000_000;
 pub const QUIET_LEN_US: u64 = 1_500_000;
 
@@ -66,6 +68,10 @@ pub struct TraceStats {
     pub sacks_over_16_blocks: u64,
     pub adjacent_blocks: bool,
     pub repeated_block: bool,
+    pub skipped_tsns: u64,
+    pub late_gap_unjudged: bool,
+    /// first transmission of the first fragment of a user message: (sender, stream, capture time)
+    pub msg_starts: Vec<(Side, u16, u64)>,
     pub tolerated_wrap_retx: u64,
     pub tolerated_overruns: u64,
     pub tolerated_empty: u64,
@@ -93,6 +99,9 @@ impl Default for TraceStats {
             sacks_over_16_blocks: 0,
             adjacent_blocks: false,
             repeated_block: false,
+            skipped_tsns: 0,
+            late_gap_unjudged: false,
+            msg_starts: Vec::new(),
             tolerated_wrap_retx: 0,
             tolerated_overruns: 0,
             tolerated_empty: 0,
@@ -103,6 +112,8 @@ impl Default for TraceStats {
 }
 
 struct Chunk {
+    /// placeholder for a TSN the sender numbered (it went on with a higher one) but has not put on the wire
+    never_sent: bool,
     /// a copy of it has been handed to the peer by the harness
     delivered: bool,
     bytes: u32,
@@ -143,6 +154,9 @@ struct Dir {
     timeout_rtx_us: Option<u64>,
     in_rtx_run: bool,
     rtx_run_last_us: u64,
+    /// capture / delivery time of the latest FORWARD-TSN of this sender
+    last_fwd_captured_us: u64,
+    last_fwd_delivered_us: u64,
 }
 
 /// Developer aid for sensitivity experiments: `C13_DISABLE=f` switches clause (f) off so that the
@@ -195,6 +209,7 @@ fn ctype_name(t: u8) -> String {
 }
 
 pub const SIG_EMPTY: &str = "packet-without-chunks";
+pub const SIG_FWD_LOST: &str = "cumulative-ack-stuck-while-silent:forward-tsn-lost-and-never-sent-again";
 pub const SIG_WRAP_SACK: &str = "retransmit-after-ack:pre-wrap-tsn-while-post-wrap-tsns-outstanding";
 pub const SIG_FORGOTTEN: &str = "window-overrun:unacked-chunks-forgotten-after-timeout-retransmission";
 
@@ -206,6 +221,8 @@ pub struct OracleInput<'a> {
     pub reliable_streams: &'a HashSet<u16>,
     pub end_us: u64,
     pub last_fault_us: u64,
+    /// an endpoint reported the association closed
+    pub closed: bool,
     /// the SACKs delivered in this run were built by the harness (net::sacksynth)
     pub synthetic_sacks: bool,
     /// configured RTO.min of the senders
@@ -361,6 +378,7 @@ impl<'a> Oracle<'a> {
                                 }
                             }
                         } else if c.ctype == wire::CT_FORWARD_TSN && c.value.len() >= 4 {
+                            self.dirs[i].last_fwd_delivered_us = e.t_us;
                             if let Some((tsn0, _)) = self.base(s) {
                                 let new_cum = u32::from_be_bytes([c.value[0], c.value[1], c.value[2], c.value[3]]);
                                 let d = new_cum.wrapping_sub(tsn0).wrapping_add(1) as i32;
@@ -512,6 +530,7 @@ impl<'a> Oracle<'a> {
                     for c in &pkt.chunks {
                         if c.ctype == wire::CT_FORWARD_TSN && c.value.len() >= 4 {
                             self.st.fwd_tsn += 1;
+                            self.dirs[i].last_fwd_captured_us = e.t_us;
                             if let Some((tsn0, _)) = self.base(s) {
                                 let new_cum = u32::from_be_bytes([c.value[0], c.value[1], c.value[2], c.value[3]]);
                                 let d = new_cum.wrapping_sub(tsn0).wrapping_add(1) as i32;
@@ -546,6 +565,15 @@ impl<'a> Oracle<'a> {
                         let off = dc.tsn.wrapping_sub(tsn0);
                         let n = self.dirs[i].chunks.len();
                         if (off as usize) < n && off < 0x8000_0000 {
+                            if self.dirs[i].chunks[off as usize].never_sent {
+                                return Err(Fail::new(
+                                    "tsn-gap",
+                                    format!(
+                                        "{:?} put DATA tsn {} on the wire for the first time at {} us, after it had already sent TSNs up to {}: first transmissions are not in TSN order",
+                                        s, dc.tsn, e.t_us, tsn0.wrapping_add(n as u32).wrapping_sub(1)
+                                    ),
+                                ));
+                            }
                             // retransmission
                             self.st.retransmissions += 1;
                             {
@@ -559,7 +587,7 @@ impl<'a> Oracle<'a> {
                                     let horizon = e.t_us.saturating_sub(rto_min * 9 / 10);
                                     let expired = dir.chunks[dir.cum_idx.min(n)..n]
                                         .iter()
-                                        .any(|c| c.covered_us.is_none() && !c.abandoned && c.last_tx_us <= horizon);
+                                        .any(|c| !c.never_sent && c.covered_us.is_none() && !c.abandoned && c.last_tx_us <= horizon);
                                     if expired {
                                         dir.timeout_rtx_us = Some(e.t_us);
                                     }
@@ -614,7 +642,7 @@ impl<'a> Oracle<'a> {
                             self.st.truncated_by_path_loss = true;
                             return Ok(());
                         }
-                        if off as usize != n {
+                        if off as usize != n && (n == 0 || off as usize - n > 4096) {
                             let sig = if n == 0 { "first-tsn-not-initial" } else { "tsn-gap" };
                             return Err(Fail::new(
                                 sig,
@@ -624,10 +652,23 @@ impl<'a> Oracle<'a> {
                                 ),
                             ));
                         }
+                        if off as usize != n {
+                            // TSNs skipped: legitimate only if the sender gives them up with a FORWARD-TSN that
+                            // reaches them (judged at the end of the trace); they must never show up later
+                            let dir = &mut self.dirs[i];
+                            for _ in n..off as usize {
+                                dir.chunks.push(Chunk { never_sent: true, delivered: false, bytes: 0, last_tx_us: e.t_us, counted: false, covered_us: None, abandoned: false, skipped_us: None });
+                            }
+                            self.st.skipped_tsns += (off as usize - n) as u64;
+                        }
+                        let n = off as usize;
                         if n > 0 && dc.tsn == 0 {
                             self.st.tsn_wrapped = true;
                         }
                         self.st.new_chunks += 1;
+                        if dc.flags & 0x02 != 0 && dc.ppid != 50 {
+                            self.st.msg_starts.push((s, dc.stream, e.t_us));
+                        }
                         let counted = dc.ppid == 50 || self.inp.reliable_streams.contains(&dc.stream);
                         // (e)
                         let perm = self.permissive_rwnd(s, e.t_us);
@@ -638,7 +679,7 @@ impl<'a> Oracle<'a> {
                         if counted {
                             dir.outstanding = after;
                         }
-                        dir.chunks.push(Chunk { delivered: false, bytes, last_tx_us: e.t_us, counted, covered_us: None, abandoned: false, skipped_us: None });
+                        dir.chunks.push(Chunk { never_sent: false, delivered: false, bytes, last_tx_us: e.t_us, counted, covered_us: None, abandoned: false, skipped_us: None });
                         let excess = after - perm as i64;
                         self.st.excess.push(excess);
                         self.st.excess_newest.push(after - newest as i64);
@@ -715,7 +756,90 @@ impl<'a> Oracle<'a> {
                 }
             }
         }
-        self.quiescence()
+        self.unsent_tsns()?;
+        self.quiescence()?;
+        self.cum_ack_stuck()
+    }
+
+    /// (d) at the end of the trace: a TSN the sender numbered and skipped must have been given up by a
+    /// FORWARD-TSN of that sender reaching it
+    fn unsent_tsns(&mut self) -> Result<(), Fail> {
+        if clause_disabled('d') {
+            return Ok(());
+        }
+        for (i, side) in [Side::A, Side::B].into_iter().enumerate() {
+            let Some((tsn0, _)) = self.dirs[i].base else { continue };
+            let dir = &self.dirs[i];
+            let holes: Vec<(usize, u64)> = dir.chunks.iter().enumerate().filter(|(_, c)| c.never_sent && !c.abandoned).map(|(k, c)| (k, c.last_tx_us)).collect();
+            if let Some((k, t)) = holes.first() {
+                if self.inp.end_us.saturating_sub(*t) < 300_000 {
+                    self.st.late_gap_unjudged = true;
+                    continue;
+                }
+                let list: Vec<u32> = holes.iter().take(8).map(|(k, _)| tsn0.wrapping_add(*k as u32)).collect();
+                return Err(Fail::new(
+                    "tsn-gap",
+                    format!(
+                        "{:?} numbered {} TSN(s) that it never put on the wire and never gave up with a FORWARD-TSN: {:?}; at {} us it went on with TSN {} as the next first transmission (initial TSN {}, trace ends at {} us) - the peer's cumulative ack can never pass them",
+                        side,
+                        holes.len(),
+                        list,
+                        t,
+                        tsn0.wrapping_add(dir.chunks[*k..].iter().position(|c| !c.never_sent).map(|p| (*k + p) as u32).unwrap_or(*k as u32 + 1)),
+                        tsn0,
+                        self.inp.end_us
+                    ),
+                ));
+            }
+        }
+        Ok(())
+    }
+
+    /// consequence of (d)/(g) as seen on the wire: the association has fallen silent, yet the peer's
+    /// cumulative ack never reached data the sender has sent and not given up
+    fn cum_ack_stuck(&mut self) -> Result<(), Fail> {
+        if self.inp.closed {
+            return Ok(());
+        }
+        let last_activity = self
+            .inp
+            .trace
+            .iter()
+            .filter(|e| e.phase == Phase::Captured && !matches!(e.class, SClass::Heartbeat | SClass::HeartbeatAck))
+            .map(|e| e.t_us)
+            .max()
+            .unwrap_or(0);
+        if self.inp.end_us.saturating_sub(last_activity.max(self.inp.last_fault_us)) < 1_500_000 {
+            return Ok(());
+        }
+        for (i, side) in [Side::A, Side::B].into_iter().enumerate() {
+            let Some((tsn0, _)) = self.dirs[i].base else { continue };
+            let dir = &self.dirs[i];
+            let stuck = dir.chunks.iter().enumerate().skip(dir.cum_idx).find(|(_, c)| !c.never_sent && !c.abandoned && c.skipped_us.is_none());
+            // the chunk the cumulative ack is waiting for: given up by a FORWARD-TSN that was put on the
+            // wire but never reached the peer (lost) and was not sent again?
+            let fwd_lost = dir.chunks.get(dir.cum_idx).map(|c| !c.never_sent && c.abandoned && c.skipped_us.is_none()).unwrap_or(false)
+                || (dir.last_fwd_captured_us > 0 && dir.last_fwd_captured_us > dir.last_fwd_delivered_us);
+            if let Some((k, c)) = stuck {
+                return Err(Fail::stall(
+                    if fwd_lost { SIG_FWD_LOST } else { "cumulative-ack-stuck-while-silent" },
+                    format!(
+                        "nothing but heartbeats has been on the wire since {} us (trace ends at {} us), yet the cumulative TSN ack delivered to {:?} stops at {} while TSN {} ({}acknowledged by a gap block) was sent and never given up; last events: {}",
+                        last_activity,
+                        self.inp.end_us,
+                        side,
+                        tsn0.wrapping_add(dir.cum_idx as u32).wrapping_sub(1),
+                        tsn0.wrapping_add(k as u32),
+                        if c.covered_us.is_some() { "" } else { "not " },
+                        {
+                            let last = self.inp.trace.iter().rposition(|e| e.phase == Phase::Captured && !matches!(e.class, SClass::Heartbeat | SClass::HeartbeatAck)).unwrap_or(0);
+                            tail(self.inp.trace, last, 30)
+                        }
+                    ),
+                ));
+            }
+        }
+        Ok(())
     }
 
     /// (g)
@@ -787,6 +911,8 @@ pub fn tail(trace: &[Ev<SClass, SctpInfo>], upto: usize, n: usize) -> String {
                 out.push_str(&format!(" DATA({},{}B)", d.tsn, trace_data_len(c)));
             } else if let Some(k) = c.as_sack() {
                 out.push_str(&format!(" SACK(cum={},rwnd={},gaps={:?})", k.cum_tsn, k.a_rwnd, k.gaps));
+            } else if c.ctype == wire::CT_FORWARD_TSN && c.value.len() >= 4 {
+                out.push_str(&format!(" FORWARD-TSN(cum={})", u32::from_be_bytes([c.value[0], c.value[1], c.value[2], c.value[3]])));
             } else {
                 out.push_str(&format!(" {}", ctype_name(c.ctype)));
             }
@@ -906,7 +1032,7 @@ fn zero_window_case() -> impl Strategy<Value = Case> {
             3 => Just(None),
             2 => (
                 1..40u16,
-                3..30u16,
+                3..22u16,
                 // dropped, long delays, and delays close to the probe / retransmission timers (RTO.min/2, RTO.min, RTO.initial)
                 prop_oneof![2 => Just(0u16), 2 => 120..500u16, 1 => 12..35u16, 1 => 25..70u16, 1 => 90..170u16, 1 => 280..330u16]
             )
@@ -914,7 +1040,7 @@ fn zero_window_case() -> impl Strategy<Value = Case> {
         ],
         prop_oneof![
             3 => Just(None),
-            1 => (1..30u16, 6..26u16, prop::bool::weighted(0.6)).prop_map(Some),
+            1 => (1..30u16, 6..19u16, prop::bool::weighted(0.6)).prop_map(Some),
         ],
     )
         .prop_map(|((rwnd, max_burst, max_cwnd, rto_ms), sender, sizes, ordered, (hole, hact), mut follow, mut sacks, reverse, (mut tsn_a, mut tsn_b), blackout, data_blackout)| {
@@ -1094,6 +1220,60 @@ fn many_holes_case() -> impl Strategy<Value = Case> {
         })
 }
 
+/// Lifetime expiring in the outbound queue: a burst of 30-80 ~1 KB messages on a maxPacketLifeTime
+/// channel (20-150 ms) - more than cwnd / the peer's window admits at once - while the sender is blocked
+/// for 0.3-2 s (every DATA packet lost, or every SACK lost / delayed), so that queued chunks outlive their
+/// lifetime before they get a TSN; then later traffic on the same and on a second channel (reliable or
+/// PR-SCTP) that has to continue the TSN sequence without a hole.
+fn lifetime_case() -> impl Strategy<Value = Case> {
+    let second = prop_oneof![3 => Just(Rel::Reliable), 1 => Just(Rel::Rexmit(1)), 1 => (30..200u16).prop_map(Rel::Timed)];
+    let blockage = prop_oneof![
+        // (kind 0) all DATA packets from ordinal `start` on are lost for `len` packets
+        3 => (2..12u16, 8..25u16).prop_map(|(a, b)| (0u8, a, b, 0u16)),
+        // (kind 1) all SACKs lost
+        2 => (1..8u16, 8..22u16).prop_map(|(a, b)| (1u8, a, b, 0u16)),
+        // (kind 2) all SACKs delayed by 0.3-2 s
+        2 => (1..8u16, 8..30u16, 300..1500u16).prop_map(|(a, b, d)| (2u8, a, b, d)),
+    ];
+    (
+        side_strategy(),
+        (20..150u16, any::<bool>()),
+        (second, any::<bool>()),
+        (30..80usize, 900..1172u32),
+        blockage,
+        prop_oneof![Just(4096u32), Just(8192u32), Just(16384u32), Just(131072u32)],
+        prop::collection::vec((0..2usize, prop_oneof![1..64u32, 600..1172u32, 1173..4000u32], 100..350u16), 3..6),
+        (prop_oneof![Just(0u8), Just(2u8)], 0..2usize),
+        tsn_strategy(),
+        tsn_strategy(),
+        sack_opt(),
+    )
+        .prop_map(|(sender, (life, ord0), (rel1, ord1), (burst, size), (kind, start, len, delay), rwnd, later, (max_burst, rto), tsn_a, tsn_b, sack)| {
+            let chans = vec![chan(100, ord0, Rel::Timed(life), None), chan(101, ord1, rel1, None)];
+            let mut sends: Vec<SendOp> = (0..burst)
+                .map(|i| SendOp { side: sender, chan: 0, task: 0, size: size + (i as u32 * 13) % 40, gap_ms: 0 })
+                .collect();
+            // later traffic: one sender task per channel, each sequential with pauses
+            for (ch, sz, gap) in later {
+                sends.push(SendOp { side: sender, chan: ch, task: ch as u8, size: sz, gap_ms: gap });
+            }
+            let mut rules = Vec::new();
+            for k in 0..len {
+                rules.push(match kind {
+                    0 => Rule { from: sender, class: SClass::Data, ordinal: start + k, action: Action::Drop },
+                    1 => Rule { from: sender.other(), class: SClass::Sack, ordinal: start + k, action: Action::Drop },
+                    _ => Rule { from: sender.other(), class: SClass::Sack, ordinal: start + k, action: Action::Delay { ms: delay } },
+                });
+            }
+            Case {
+                w: Workload { chans, sends },
+                n: NetSpec { rules, tsn_a, tsn_b, rwnd, max_burst, max_cwnd: 262144, rto_ms: RTOS[rto] },
+                quiesce: true,
+                sack,
+            }
+        })
+}
+
 fn net_strategy(max_ord: u16, max_rules: usize) -> impl Strategy<Value = NetSpec> {
     (
         prop::collection::vec(setup_rule(), 0..3),
@@ -1206,6 +1386,7 @@ pub struct Agg {
     pub max_excess_newest: i64,
     pub retx_after_cover_ms: BTreeMap<String, u64>,
     pub quiet: BTreeMap<String, u64>,
+    pub expired_in_queue_msgs: u64,
     pub sacks_over_16_blocks: u64,
     pub runs_with_over_16_blocks: u64,
     pub max_gap_blocks: usize,
@@ -1287,6 +1468,7 @@ pub fn judge(c: &Case, r: &RunResult, rec: &CaseRec, agg: &Mutex<Agg>, tolerated
         reliable_streams: &reliable,
         end_us: r.end_us,
         last_fault_us: r.last_fault_us,
+        closed: r.close_reason.iter().any(|x| x.is_some()),
         synthetic_sacks: c.sack.is_some(),
         rto_min_us: c.n.rto_ms.1 as u64 * 1000,
         path_loss,
@@ -1319,6 +1501,44 @@ pub fn judge(c: &Case, r: &RunResult, rec: &CaseRec, agg: &Mutex<Agg>, tolerated
     }
     if st.fwd_tsn > 0 {
         rec.label("forward-tsn-on-wire");
+    }
+    // maxPacketLifeTime messages whose lifetime ran out while they were still queued: first put on the
+    // wire later than submit + lifetime (channels fed by one sender task: k-th message start on the
+    // stream = k-th accepted submit)
+    let mut expired_in_queue = 0u64;
+    let mut never_on_wire = 0u64;
+    for (ci, ch) in c.w.chans.iter().enumerate() {
+        let Rel::Timed(life) = ch.rel else { continue };
+        for side in [Side::A, Side::B] {
+            let tasks: HashSet<u8> = c.w.sends.iter().filter(|o| o.side == side && o.chan == ci).map(|o| o.task).collect();
+            if tasks.len() != 1 {
+                continue;
+            }
+            let mut subs: Vec<&Submit> = r.submits.iter().filter(|x| x.side == side && x.chan == ci && x.ok).collect();
+            subs.sort_by_key(|x| x.op);
+            let starts: Vec<u64> = st.msg_starts.iter().filter(|(s2, sid, _)| *s2 == side && *sid == ch.id).map(|x| x.2).collect();
+            if starts.len() < subs.len() {
+                never_on_wire += (subs.len() - starts.len()) as u64;
+            }
+            for (sub, t) in subs.iter().zip(&starts) {
+                if *t > sub.t_us + life as u64 * 1000 {
+                    expired_in_queue += 1;
+                }
+            }
+        }
+    }
+    if expired_in_queue > 0 {
+        rec.label("lifetime-expired-while-still-queued");
+        agg.lock().expired_in_queue_msgs += expired_in_queue;
+    }
+    if never_on_wire > 0 {
+        rec.label("accepted-timed-message-never-put-on-the-wire");
+    }
+    if st.skipped_tsns > 0 {
+        rec.label("tsn-skipped-and-forwarded-over");
+    }
+    if st.late_gap_unjudged {
+        rec.label("tsn-gap-too-close-to-trace-end(not judged)");
     }
     if let Some(f) = &c.sack {
         rec.label("sacks-built-by-harness");
@@ -1399,6 +1619,11 @@ pub fn judge(c: &Case, r: &RunResult, rec: &CaseRec, agg: &Mutex<Agg>, tolerated
     if !r.complete || !r.senders_done {
         rec.label("run-incomplete(liveness is C01's clause)");
     }
+    if let Err(f) = &res {
+        if f.stall && std::env::var("C13_DEBUG").is_ok() {
+            eprintln!("C13_DEBUG stall: {} | A: {} | B: {}", f.msg, r.diag[0], r.diag[1]);
+        }
+    }
     res.map_err(|mut f| {
         f.msg = format!(
             "{} | rwnd={} burst={} cwnd={} rto={:?} | A: {} | B: {}",
@@ -1435,11 +1660,11 @@ fn checker(thorough: bool, agg: Arc<Mutex<Agg>>, tolerated: Arc<Vec<String>>) ->
 
 pub fn run(ctx: &mut Ctx) {
     ctx.level = "exploration";
-    ctx.rule = "oracle over the decoded wire trace (every SCTP packet captured between two real IceConn+DTLS+SCTP endpoints, parsed by the harness' own reader and CRC32c) of proptest-generated runs: (1) zero-window runs: receive window {4,8,16,64 KiB} x max_burst {0,1,2,8} x max_cwnd {4800,64K,256K} x 4 RTO triples, bulk one-directional transfer (full-size chunks / large fragmented messages / hundreds of tiny messages / mixed, optional reverse traffic) with one early DATA packet held back, delayed or dropped plus 0-6 faults on the following DATA packets (which include its retransmissions) and 0-3 on SACKs, forced initial TSNs near 0 / 2^31 / 2^32; (2) C01-style reliable bidirectional workloads with faults on setup and data chunks; (3) C12-style mixed reliable / partially reliable / in-band channels with several sender tasks. Non-trivial = the trace holds >= 1 retransmission or a SACK with a_rwnd < 2400; distinct by case digest.".into();
+    ctx.rule = "oracle over the decoded wire trace (every SCTP packet captured between two real IceConn+DTLS+SCTP endpoints, parsed by the harness' own reader and CRC32c) of proptest-generated runs: (1) zero-window runs: receive window {4,8,16,64 KiB} x max_burst {0,1,2,8} x max_cwnd {4800,64K,256K} x 4 RTO triples, bulk one-directional transfer (full-size chunks / large fragmented messages / hundreds of tiny messages / mixed, optional reverse traffic) with one early DATA packet held back, delayed or dropped plus 0-6 faults on the following DATA packets (which include its retransmissions) and 0-3 on SACKs, forced initial TSNs near 0 / 2^31 / 2^32; (2) C01-style reliable bidirectional workloads with faults on setup and data chunks; (3) C12-style mixed reliable / partially reliable / in-band channels with several sender tasks. (4) many-holes: 17-60 simultaneous holes, harness-built uncapped SACKs; (5) lifetime-in-queue: a burst on a maxPacketLifeTime channel (20-150 ms) while all DATA or all SACKs are lost / delayed for 0.3-2 s so that queued chunks outlive their lifetime before they are numbered, then later traffic on the same and a second channel. Non-trivial = the trace holds >= 1 retransmission or a SACK with a_rwnd < 2400; distinct by case digest.".into();
     ctx.assumptions = vec![
         "the trace is taken between DTLS decryption and SCTP input of the receiving endpoint: capture order equals send order (loss-free in-order loopback datagram path), capture time is later than the send time by the transit latency".into(),
         "window clause: outstanding bytes = user-data bytes of reliably sent chunks (reliable channels + DCEP) first-transmitted so far and covered by no SACK delivered to the sender so far (cumulative or gap, union over all delivered SACKs) and not given up by a FORWARD-TSN; compared with the largest a_rwnd among the SACKs delivered in the last 100 ms plus the one before them (the INIT / INIT-ACK a_rwnd while no older SACK exists); allowance one packet (1200 bytes) as RFC 4960 6.1 rule A".into(),
-        "time-bounded clauses (window, retransmit-after-ack 1 s, quiescence 1 s + 1.5 s) are subject to the 3x solo re-run rule".into(),
+        "time-bounded clauses (window, retransmit-after-ack 300 ms, quiescence 1 s + 1.5 s) are subject to the 3x solo re-run rule; the consequence check 'the peer's cumulative ack reaches everything sent and not given up once the wire has been silent for 1.5 s' is a stall verdict (counts when it reproduces alone or in >= 3 cases of a batch)".into(),
         "quiescence window starts 1 s after the later of (last TSN acknowledged/skipped, last harness fault effect) and is observed with settle = 2.6 s".into(),
         "faults are applied to SCTP packets between DTLS decryption and SCTP input; applications send only after the channel announced Open".into(),
     ];
@@ -1453,11 +1678,15 @@ pub fn run(ctx: &mut Ctx) {
     let want = |name: &str| only.as_deref().map(|o| o == name).unwrap_or(true);
     let n = ctx.scale(240usize, 3000usize);
     if want("zero-window") {
-        ctx.sub_async(&rt, "zero-window", n, ctx.scale(120, 64), (zero_window_case(), sack_opt()).prop_map(|(mut c, s)| { c.sack = s; c }), checker(th, agg.clone(), tolerated.clone()));
+        ctx.sub_async(&rt, "zero-window", n, ctx.scale(240, 64), (zero_window_case(), sack_opt()).prop_map(|(mut c, s)| { c.sack = s; c }), checker(th, agg.clone(), tolerated.clone()));
     }
     let n = ctx.scale(96usize, 2400usize);
     if want("many-holes") {
         ctx.sub_async(&rt, "many-holes", n, ctx.scale(96, 64), many_holes_case(), checker(th, agg.clone(), tolerated.clone()));
+    }
+    let n = ctx.scale(64usize, 1600usize);
+    if want("lifetime-in-queue") {
+        ctx.sub_async(&rt, "lifetime-in-queue", n, 64, lifetime_case(), checker(th, agg.clone(), tolerated.clone()));
     }
     let n = ctx.scale(160usize, 3000usize);
     if want("reliable-faulted") {
@@ -1483,6 +1712,7 @@ pub fn run(ctx: &mut Ctx) {
             "max_window_excess_vs_newest_sack": a.max_excess_newest,
             "retransmission_delay_after_covering_sack": a.retx_after_cover_ms,
             "quiescence_windows": a.quiet,
+            "timed_messages_first_sent_after_their_lifetime_expired_in_the_queue": a.expired_in_queue_msgs,
             "delivered_sacks_with_more_than_16_gap_blocks": a.sacks_over_16_blocks,
             "runs_with_more_than_16_gap_blocks_presented": a.runs_with_over_16_blocks,
             "max_gap_blocks_in_a_delivered_sack": a.max_gap_blocks,
